@@ -32,6 +32,7 @@ type Profile struct {
 	DbStat      bool
 	NoSnapshot  bool
 	JournalMode []string
+	LegacyFormat bool // one world in eight is a legacy-format file (schema format 1, later 2 or 3: DESC in indexes is ignored)
 	WALTrip     bool // histories may take the file through WAL mode and back
 	CounterWrap bool // histories may put the file change counter just below its wrap-around
 	CacheSize   int // writer cache_size pragma (pages); 0 = default
@@ -59,6 +60,7 @@ type World struct {
 	AutoVac int
 	JMode   string
 	InTx    bool
+	Legacy  bool // the file was created with the legacy schema format (as SQLite 3.3 - 3.7.9 did by default)
 	InWAL   bool // the file is in WAL mode right now (a rollback-journal reader must refuse it)
 	Commits int
 	// OnCommit is called after every refresh of the reference snapshot.
@@ -91,6 +93,29 @@ func New(c *sim.Ctx, w *sq.Worker, dir string, prof Profile) *World {
 	}
 	if err := w.Open(wd.OConn, wd.Path); err != nil {
 		c.Troublef("open oracle: %v", err)
+	}
+	if prof.LegacyFormat && s.Chance(1, 8, "legacy-format") {
+		// what SQLite 3.3.0 - 3.7.9 created by default: schema format 1; it becomes 2 or 3
+		// with the first ALTER TABLE ADD COLUMN, never 4, and in such a file the DESC of an
+		// index is ignored (entries are stored ascending). Made here by writing the format
+		// number into a fresh file while nobody has it open; SQLite then keeps to it.
+		if wd.Exec("CREATE TABLE legacy0 (x)") {
+			w.CloseConn(wd.Conn)
+			w.CloseConn(wd.OConn)
+			if f, err := os.OpenFile(wd.Path, os.O_WRONLY, 0); err == nil {
+				f.WriteAt([]byte{0, 0, 0, 1}, 44)
+				f.Close()
+			}
+			if err := w.Open(wd.Conn, wd.Path, pragmas[2:]...); err != nil {
+				c.Troublef("reopen writer: %v", err)
+			}
+			if err := w.Open(wd.OConn, wd.Path); err != nil {
+				c.Troublef("reopen oracle: %v", err)
+			}
+			wd.Legacy = true
+			c.Probe("legacy-format-file")
+			c.Note("-- schema format (header offset 44) := 1 on the fresh file")
+		}
 	}
 	c.Log.Add("W", "open", "page_size=%d auto_vacuum=%d journal=%s", wd.PageSz, wd.AutoVac, wd.JMode)
 	c.Note("PRAGMA page_size=%d; auto_vacuum=%d; journal_mode=%s", wd.PageSz, wd.AutoVac, wd.JMode)
@@ -201,6 +226,20 @@ func (w *World) Refresh() {
 	if w.OnCommit != nil {
 		w.OnCommit()
 	}
+}
+
+// SchemaFormat reads the schema format number from the file header (0 if unreadable).
+func (w *World) SchemaFormat() int {
+	f, err := os.Open(w.Path)
+	if err != nil {
+		return 0
+	}
+	defer f.Close()
+	b := make([]byte, 4)
+	if _, err := f.ReadAt(b, 44); err != nil {
+		return 0
+	}
+	return int(b[0])<<24 | int(b[1])<<16 | int(b[2])<<8 | int(b[3])
 }
 
 func (w *World) journalModeIs(mode string) bool {
@@ -546,6 +585,14 @@ func (w *World) whereClause(t *sq.Table) (string, []sq.Val) {
 // Step performs one committed transaction of the history.
 func (w *World) Step() {
 	s := w.S
+	if w.Legacy && w.SchemaFormat() == 1 && s.Chance(1, 3, "legacy-upgrade") {
+		// the first ADD COLUMN takes a legacy file to format 2 (NULL default) or 3
+		w.seq++
+		w.Begin()
+		w.Exec(fmt.Sprintf("ALTER TABLE legacy0 ADD COLUMN y%d %s", w.seq, []string{"DEFAULT 5", "", "TEXT DEFAULT 'd'"}[s.Draw(3, "legacy-default")]))
+		w.Commit()
+		return
+	}
 	tabs := w.Snap.Tables
 	if len(tabs) == 0 {
 		w.CreateTable()
